@@ -24,6 +24,7 @@ type Gen struct {
 	pkgByPath map[string]*packages.Package
 	ssaPkgs   map[string]*ssa.Package
 	loadErrs  []string
+	srcCache  map[string][]string
 }
 
 // contractDirs finds package directories in the repo that carry a contracts_verif.go file.
@@ -252,3 +253,23 @@ func (f *FnVC) scriptForCase(o *Obl, head string, extra string) string {
 }
 
 func typesNewPointer(t types.Type) types.Type { return types.NewPointer(t) }
+
+// sourceLine returns the text of the source line containing pos.
+func (g *Gen) sourceLine(pos token.Pos) string {
+	p := g.fset.Position(pos)
+	if g.srcCache == nil {
+		g.srcCache = map[string][]string{}
+	}
+	lines, ok := g.srcCache[p.Filename]
+	if !ok {
+		b, err := os.ReadFile(p.Filename)
+		if err == nil {
+			lines = strings.Split(string(b), "\n")
+		}
+		g.srcCache[p.Filename] = lines
+	}
+	if p.Line-1 < len(lines) && p.Line > 0 {
+		return lines[p.Line-1]
+	}
+	return ""
+}
